@@ -10,7 +10,7 @@ from .. import gen, rng
 LEVEL = 'exploration'
 RULE = ("(a) Histories: a Hypothesis RuleBasedStateMachine per run picks storage class (Batch, Interval, Sequence, UniformReservoir, "
         "GeometricReservoir), capacity 1..6, store_targets and (Geometric) p in {0, 1, default, grid, arbitrary float}; every "
-        "update carries a unique serial number in x and in y, the library's random draws come from a Hypothesis-generated script "
+        "update carries a unique serial number in x and in y (some arrivals come WITHOUT a target: update(x) / y=None), the library's random draws come from a Hypothesis-generated script "
         "(extremes 0.0 and 1-2^-53 included). After EVERY update: stored serials pairwise distinct and a subset of arrivals, "
         "len == min(n, capacity) (Batch: n), targets aligned with instances or absent, Batch == stream, Interval == last size, "
         "Sequence == last one. (b) Exhaustive: every outcome of the draws (choice-point enumeration; uniforms on a 3-cell grid) for "
@@ -45,6 +45,12 @@ def capacity(cfg):
     return {'batch': None, 'sequence': 1}.get(cfg['cls'], cfg['k'])
 
 
+def _is_none(cfg, i):
+    """Arrival i comes without a target (update(x) / y=None - the documented default of the optional argument)."""
+    pat = cfg.get('none_targets')
+    return bool(pat) and bool(pat[i % len(pat)])
+
+
 def check_state(cfg, storage, n, prev_serials):
     """Invariant after n updates.  Returns (error key, detail) or None."""
     xs, ys = storage.get_data()
@@ -65,8 +71,9 @@ def check_state(cfg, storage, n, prev_serials):
         if len(ys) != len(xs):
             return 'targets-length', f'{len(xs)} instances but {len(ys)} targets'
         for x, y in zip(xs, ys):
-            if y != ['y', x['id']]:
-                return 'targets-misaligned', f'instance {x["id"]} stored with target {y!r}'
+            want = None if _is_none(cfg, x['id']) else ['y', x['id']]
+            if y != want:
+                return 'targets-misaligned', f'instance {x["id"]} stored with target {y!r}, it arrived with {want!r}'
     elif len(ys) != 0:
         return 'targets-kept', f'store_targets=False but {len(ys)} targets kept'
     if cfg['cls'] == 'batch' and serials != list(range(1, n + 1)):
@@ -81,7 +88,13 @@ def drive(cfg, n, on_step=None):
     replaced = False
     prev = []
     for i in range(1, n + 1):
-        storage.update({'id': i, 'v': i * 10}, ['y', i])
+        if _is_none(cfg, i):
+            if i % 2:
+                storage.update({'id': i, 'v': i * 10})
+            else:
+                storage.update({'id': i, 'v': i * 10}, None)
+        else:
+            storage.update({'id': i, 'v': i * 10}, ['y', i])
         err = check_state(cfg, storage, i, prev)
         if err:
             return err, replaced
@@ -131,6 +144,8 @@ def run_enum(case):
 def configs(draw):
     c = draw(st.sampled_from(CLASSES))
     cfg = {'cls': c, 'k': draw(st.integers(1, 6)), 'st': draw(st.booleans())}
+    if draw(st.integers(0, 2)) == 0:
+        cfg['none_targets'] = draw(st.lists(st.integers(0, 1), min_size=1, max_size=5))   # pattern of arrivals without a target
     if c == 'geometric':
         cfg['p'] = draw(st.one_of(st.sampled_from([None, 0, 1, 1.0, 0.0, 0.5, 0.25, 0.75]),
                                   st.floats(0, 1, allow_nan=False)))
@@ -160,7 +175,10 @@ class StorageMachine(RuleBasedStateMachine):
     def update(self):
         self.n += 1
         with rng.patched_random(self.src):
-            self.storage.update({'id': self.n, 'v': self.n * 10}, ['y', self.n])
+            if _is_none(self.cfg, self.n):
+                self.storage.update({'id': self.n, 'v': self.n * 10})
+            else:
+                self.storage.update({'id': self.n, 'v': self.n * 10}, ['y', self.n])
         cap = capacity(self.cfg)
         if cap is not None and self.n > cap and any(x['id'] == self.n for x in self.storage.get_data()[0]):
             self.replaced = True
@@ -215,6 +233,8 @@ def run(ctx):
                         cfg = {'cls': c, 'k': k, 'st': stt}
                         if c == 'geometric':
                             cfg['p'] = p
+                        if stt and p in (None, 1):
+                            cfg['none_targets'] = [1, 0, 0, 1]
                         case = {'cfg': cfg, 'n': k + extra, 'grid': 3}
                         res = run_enum(case)
                         ctx.record('enum', case, res)
